@@ -546,4 +546,282 @@ Section HopProofs.
       lia.
     Qed.
   End Loop.
+
+  (* ---- the partition the loop ends with is Nerode equivalence on Q ---- *)
+  Section Nerode.
+    Variable step : X -> nat -> X.
+    Variable fin : X -> bool.
+    Variable syms : list nat.
+    Hypothesis Q_closed : forall x a, In a syms -> In x Q -> In (step x a) Q.
+    Hypothesis foreign : forall x y a, ~ In a syms -> step x a = step y a.
+    Variable back : nat -> X -> list X.
+    Hypothesis back_spec : forall a t x, In a syms -> In t Q -> (In x (back a t) <-> In x Q /\ step x a = t).
+    Variable finals : list X.
+    Hypothesis finals_spec : forall x, In x Q -> (In x finals <-> fin x = true).
+    Variable sord : list nat.
+    Hypothesis sord_spec : forall a, In a sord <-> In a syms.
+    Variable sched : nat -> list nat -> nat.
+
+    Notation xrun := (xrun X step).
+    Definition nerode (x y : X) : Prop := forall w, fin (xrun x w) = fin (xrun y w).
+
+    Lemma stable_nerode P : I0 fin P -> J step syms P [] ->
+      forall w x y, In x Q -> In y Q -> cls P x = cls P y -> fin (xrun x w) = fin (xrun y w).
+    Proof.
+      intros H0 HJ. induction w as [|a w IH]; intros x y Hx Hy E; simpl.
+      - apply H0; assumption.
+      - destruct (in_dec Nat.eq_dec a syms) as [Ha|Na].
+        + apply IH; [apply Q_closed; assumption|apply Q_closed; assumption|].
+          destruct (Nat.eq_dec (cls P (step x a)) (cls P (step y a))) as [E'|N]; [exact E'|].
+          destruct (HJ x y a Hx Hy Ha E N) as [[]|[]].
+        + rewrite (foreign x y a Na). reflexivity.
+    Qed.
+
+    Theorem hopcroft_nerode : exists Pf, hopcroft eqbX Q back sord sched finals = Some Pf /\ wf Pf /\
+      forall x y, In x Q -> In y Q -> (cls Pf x = cls Pf y <-> nerode x y).
+    Proof.
+      destruct (hopcroft_ok step fin syms Q_closed back back_spec finals finals_spec sord sord_spec sched nerode)
+        as [Pf [E [HP [H0 [H1 HJ]]]]].
+      - intros x y _ _ H. apply (H []).
+      - intros x y a _ _ _ H w. apply (H (a :: w)).
+      - exists Pf. split; [exact E|]. split; [exact HP|]. intros x y Hx Hy. split.
+        + intros Exy w. apply (stable_nerode Pf H0 HJ w x y Hx Hy Exy).
+        + intro H. apply H1; assumption.
+    Qed.
+  End Nerode.
 End HopProofs.
+
+(* ================= the concrete system of _minify ================= *)
+From AV Require Import Proofs.FARun Proofs.Minimize.
+
+Lemma bool_iff_eq (a b : bool) : (a = true <-> b = true) -> a = b.
+Proof. destruct a; destruct b; intros [H1 H2]; try reflexivity; [symmetry; apply H1; reflexivity|apply H2; reflexivity]. Qed.
+
+Lemma find_ext_in {A} (f g : A -> bool) l : (forall x, In x l -> f x = g x) -> find f l = find g l.
+Proof.
+  induction l as [|y l IH]; intro H; simpl; [reflexivity|].
+  rewrite <- (H y (or_introl eq_refl)). destruct (f y); [reflexivity|]. apply IH. intros x Hx. apply H. right. exact Hx.
+Qed.
+
+Lemma forallb_ext_in {A} (f g : A -> bool) l : (forall x, In x l -> f x = g x) -> forallb f l = forallb g l.
+Proof.
+  induction l as [|y l IH]; intro H; simpl; [reflexivity|].
+  rewrite (H y (or_introl eq_refl)). f_equal. apply IH. intros x Hx. apply H. right. exact Hx.
+Qed.
+
+(* the quotient only asks its class function whether two kept states share a class and - when the
+   trap exists - whether a kept state shares the trap's class *)
+Section QuotientExt.
+  Variable m : dfa.
+  Variable K : list nat.
+  Variables c1 c2 : option nat -> nat.
+  Hypothesis Hinit : In (d_init m) K.
+  Hypothesis Hkk : forall q r, In q K -> In r K -> (c1 (Some q) = c1 (Some r) <-> c2 (Some q) = c2 (Some r)).
+  Hypothesis Hkt : trap_needed m K = true -> forall q, In q K -> (c1 (Some q) = c1 None <-> c2 (Some q) = c2 None).
+
+  Lemma dropped_ext q : In q K -> dropped m K c1 (Some q) = dropped m K c2 (Some q).
+  Proof.
+    intro Hq. unfold dropped. destruct (trap_needed m K) eqn:E; [|reflexivity]. simpl.
+    apply bool_iff_eq. rewrite !Nat.eqb_eq. apply Hkt; [reflexivity|exact Hq].
+  Qed.
+
+  Lemma cname_ext q : In q K -> cname K c1 q = cname K c2 q.
+  Proof.
+    intro Hq. unfold cname.
+    rewrite (find_ext_in (fun r => Nat.eqb (c1 (Some r)) (c1 (Some q))) (fun r => Nat.eqb (c2 (Some r)) (c2 (Some q))) K).
+    - reflexivity.
+    - intros r Hr. apply bool_iff_eq. rewrite !Nat.eqb_eq. apply Hkk; assumption.
+  Qed.
+
+  Lemma live_ext : live m K c1 = live m K c2.
+  Proof. unfold live. apply filter_ext_in. intros q Hq. rewrite (dropped_ext q Hq). reflexivity. Qed.
+
+  Lemma live_K q : In q (live m K c2) -> In q K.
+  Proof. unfold live. intro H. apply filter_In in H. tauto. Qed.
+
+  Lemma qstates_ext : qstates m K c1 = qstates m K c2.
+  Proof.
+    unfold qstates. rewrite live_ext. apply filter_ext_in. intros q Hq.
+    rewrite (cname_ext q (live_K q Hq)). reflexivity.
+  Qed.
+
+  Lemma qstates_K r : In r (qstates m K c2) -> In r K.
+  Proof. unfold qstates. intro H. apply filter_In in H. apply live_K. tauto. Qed.
+
+  Lemma qtarget_ext r a : qtarget m K c1 r a = qtarget m K c2 r a.
+  Proof.
+    unfold qtarget. destruct (kstep m K (Some r) a) as [t|] eqn:E; [|reflexivity].
+    assert (Ht : In t K).
+    { simpl in E. destruct (d_delta m r a) as [t'|]; [|discriminate]. destruct (memb t' K) eqn:Em; [|discriminate].
+      inversion E; subst. apply memb_In. exact Em. }
+    rewrite (dropped_ext t Ht), (cname_ext t Ht). reflexivity.
+  Qed.
+
+  Lemma qrow_ext r : qrow m K c1 r = qrow m K c2 r.
+  Proof. unfold qrow. apply flat_map_ext. intro a. rewrite qtarget_ext. reflexivity. Qed.
+
+  Theorem quotient_ext : quotient m K c1 = quotient m K c2.
+  Proof.
+    unfold quotient. rewrite qstates_ext. destruct (qstates m K c2) as [|r0 rest] eqn:Eq; [reflexivity|].
+    rewrite (dropped_ext _ Hinit). destruct (dropped m K c2 (Some (d_init m))); [reflexivity|].
+    f_equal. f_equal.
+    - unfold qtrans. rewrite qstates_ext.
+      assert (T : map (fun r => (r, qrow m K c1 r)) (qstates m K c2) = map (fun r => (r, qrow m K c2 r)) (qstates m K c2)).
+      { apply map_ext. intro r. rewrite qrow_ext. reflexivity. }
+      rewrite (cname_ext _ Hinit).
+      assert (F : qfinals m K c1 = qfinals m K c2).
+      { unfold qfinals. f_equal. apply map_ext_in. intros q Hq. apply filter_In in Hq. apply cname_ext. tauto. }
+      assert (Pp : qpartial m K c1 = qpartial m K c2).
+      { unfold qpartial. rewrite qstates_ext. f_equal. apply forallb_ext_in. intros r _. rewrite qrow_ext. reflexivity. }
+      rewrite T, F, Pp, Eq. reflexivity.
+    - unfold qblocks. rewrite qstates_ext, live_ext. apply map_ext. intro r.
+      apply filter_ext_in. intros q Hq. rewrite (cname_ext q (live_K q Hq)). reflexivity.
+  Qed.
+End QuotientExt.
+
+Section Concrete.
+  Variable m : dfa.
+  Hypothesis Hv : valid_dfa m = true.
+  Variable K : list nat.
+  Hypothesis HK : goodK m K.
+
+  Notation Qh := (h_states m K).
+  Notation kst := (kstep m K).
+
+  Lemma K_row q : In q K -> exists row, d_row m q = Some row.
+  Proof. intro Hq. apply (state_has_row m Hv). apply (gk_states m K HK). exact Hq. Qed.
+
+  Lemma rows_spec q row : In (q, row) (h_rows m K) <-> In q K /\ d_row m q = Some row.
+  Proof.
+    destruct (valid_dfa_parts m Hv) as (_ & _ & Hk & _).
+    unfold h_rows. rewrite filter_In. simpl. rewrite memb_In. split.
+    - intros [Hin Hq]. split; [exact Hq|]. unfold d_row. apply assoc_NoDup; assumption.
+    - intros [Hq E]. split; [apply assoc_In; exact E|exact Hq].
+  Qed.
+
+  Lemma target_kstep q row a : d_row m q = Some row -> h_target K row a = kst (Some q) a.
+  Proof. intro E. unfold h_target. simpl. unfold d_delta. rewrite E. reflexivity. Qed.
+
+  (* the trap is created exactly when the specification model says it is needed *)
+  Lemma h_trap_eq : h_trap m K = trap_needed m K.
+  Proof.
+    apply bool_iff_eq. unfold h_trap, trap_needed. rewrite !existsb_exists. split.
+    - intros [[q row] [Hin H]]. apply rows_spec in Hin. destruct Hin as [Hq E]. exists q. split; [exact Hq|].
+      apply existsb_exists in H. destruct H as [a [Ha H]]. apply existsb_exists. exists a. split; [exact Ha|].
+      simpl in H. rewrite (target_kstep q row a E) in H. exact H.
+    - intros [q [Hq H]]. destruct (K_row q Hq) as [row E]. exists (q, row). split; [apply rows_spec; split; assumption|].
+      apply existsb_exists in H. destruct H as [a [Ha H]]. apply existsb_exists. exists a. split; [exact Ha|].
+      simpl. rewrite (target_kstep q row a E). exact H.
+  Qed.
+
+  Lemma Qh_In x : In x Qh <-> match x with Some q => In q K | None => trap_needed m K = true end.
+  Proof.
+    unfold h_states. rewrite h_trap_eq, in_app_iff, in_map_iff. destruct x as [q|]; split.
+    - intros [[y [E Hy]]|H]; [inversion E; subst; exact Hy|]. destruct (trap_needed m K); [destruct H as [H|[]]; discriminate|destruct H].
+    - intro H. left. exists q. split; [reflexivity|exact H].
+    - intros [[y [E _]]|H]; [discriminate|]. destruct (trap_needed m K); [reflexivity|destruct H].
+    - intro H. right. rewrite H. left. reflexivity.
+  Qed.
+
+  Lemma Qh_kQ x : In x Qh -> In x (kQ K).
+  Proof. intro H. apply Qh_In in H. apply kQ_In. destruct x; [exact H|trivial]. Qed.
+
+  Lemma Qh_nonempty : Qh <> [].
+  Proof.
+    intro E. assert (H : In (Some (d_init m)) Qh) by (apply Qh_In; apply (gk_init m K HK)). rewrite E in H. destruct H.
+  Qed.
+
+  Lemma Qh_closed x a : In a (d_syms m) -> In x Qh -> In (kst x a) Qh.
+  Proof.
+    intros Ha Hx. apply Qh_In. destruct (kst x a) as [t|] eqn:E.
+    - destruct x as [q|]; [|discriminate]. simpl in E. destruct (d_delta m q a) as [t'|]; [|discriminate].
+      destruct (memb t' K) eqn:Em; [|discriminate]. inversion E; subst. apply memb_In. exact Em.
+    - destruct x as [q|]; [|apply Qh_In in Hx; exact Hx]. apply Qh_In in Hx.
+      unfold trap_needed. apply existsb_exists. exists q. split; [exact Hx|].
+      apply existsb_exists. exists a. split; [exact Ha|]. rewrite E. reflexivity.
+  Qed.
+
+  Lemma h_back_spec a t x : In a (d_syms m) -> In t Qh -> (In x (h_back m K a t) <-> In x Qh /\ kst x a = t).
+  Proof.
+    intros _ Ht. unfold h_back. rewrite in_app_iff, in_map_iff. destruct x as [q|].
+    - split.
+      + intros [H|[[q' row] [E Hin]]]; [destruct t; [destruct H|destruct H as [H|[]]; discriminate]|].
+        simpl in E. inversion E; subst q'. apply filter_In in Hin. destruct Hin as [Hin Ht'].
+        apply rows_spec in Hin. destruct Hin as [Hq Er]. simpl in Ht'.
+        apply (eqb_opt_ok _ eqb_nat_ok) in Ht'. rewrite (target_kstep q row a Er) in Ht'.
+        split; [apply Qh_In; exact Hq|exact Ht'].
+      + intros [Hq E]. apply Qh_In in Hq. destruct (K_row q Hq) as [row Er]. right. exists (q, row).
+        split; [reflexivity|]. apply filter_In. split; [apply rows_spec; split; assumption|].
+        simpl. apply (eqb_opt_ok _ eqb_nat_ok). rewrite (target_kstep q row a Er). exact E.
+    - split.
+      + intros [H|[[q' row] [E _]]]; [|discriminate]. destruct t as [t|]; [destruct H|].
+        split; [exact Ht|reflexivity].
+      + intros [_ E]. simpl in E. subst t. left. left. reflexivity.
+  Qed.
+
+  Lemma h_finals_spec x : In x Qh -> (In x (h_finals m K) <-> ofinal m x = true).
+  Proof.
+    intro Hx. unfold h_finals. rewrite in_map_iff. destruct x as [q|]; simpl.
+    - apply Qh_In in Hx. split.
+      + intros [q' [E H]]. inversion E; subst. apply filter_In in H. tauto.
+      + intro H. exists q. split; [reflexivity|]. apply filter_In. split; assumption.
+    - split; [intros [q' [E _]]; discriminate|discriminate].
+  Qed.
+
+  Variable sched : nat -> list nat -> nat.
+  Variable sord : list nat.
+  Hypothesis sord_spec : forall a, In a sord <-> In a (d_syms m).
+
+  Notation cls P := (look oeqb (p_tab P)).
+
+  (* for every schedule and every symbol order: the loop ends, and two items of the refined system
+     share a set iff they accept the same words (kept system with its trap) *)
+  Theorem h_hopcroft_nerode : exists Pf, h_hopcroft m K sched sord = Some Pf /\
+    wf (option nat) oeqb Qh Pf /\
+    forall x y, In x Qh -> In y Qh ->
+      (cls Pf x = cls Pf y <-> forall w, ofinal m (xrun (option nat) kst x w) = ofinal m (xrun (option nat) kst y w)).
+  Proof.
+    unfold h_hopcroft.
+    exact (hopcroft_nerode (option nat) oeqb (eqb_opt_ok _ eqb_nat_ok) Qh Qh_nonempty kst (ofinal m) (d_syms m)
+             (fun x a Ha Hx => Qh_closed x a Ha Hx) (kstep_foreign m Hv K) (h_back m K) h_back_spec
+             (h_finals m K) h_finals_spec sord sord_spec sched).
+  Qed.
+
+  (* ... which is the partition the specification model computes *)
+  Theorem h_hopcroft_moore : exists Pf t, h_hopcroft m K sched sord = Some Pf /\ kmoore m K = Some t /\
+    wf (option nat) oeqb Qh Pf /\
+    forall x y, In x Qh -> In y Qh -> (cls Pf x = cls Pf y <-> look oeqb t x = look oeqb t y).
+  Proof.
+    destruct h_hopcroft_nerode as [Pf [E [Hwf Hn]]].
+    destruct (moore_nerode (option nat) oeqb (eqb_opt_ok _ eqb_nat_ok) kst (ofinal m)
+                (d_syms m) (kQ K) (kQ_closed m K) (kstep_foreign m Hv K)) as [t [Et [Hm _]]].
+    exists Pf, t. split; [exact E|]. split; [exact Et|]. split; [exact Hwf|].
+    intros x y Hx Hy. rewrite (Hn x y Hx Hy). symmetry. apply Hm; apply Qh_kQ; assumption.
+  Qed.
+
+  Theorem hminify_core_eq : hminify_core m K sched sord = minify_core m K.
+  Proof.
+    destruct h_hopcroft_moore as [Pf [t [E [Et [_ H]]]]]. unfold hminify_core, minify_core. rewrite E, Et.
+    apply quotient_ext.
+    - apply (gk_init m K HK).
+    - intros q r Hq Hr. apply H; apply Qh_In; assumption.
+    - intros Hneed q Hq. apply H; apply Qh_In; assumption.
+  Qed.
+End Concrete.
+
+(* DFA.minify / DFA.to_partial(minify=True) with the Hopcroft refinement: for every schedule and
+   every symbol order the very result (automaton and retained-name partition) of the
+   specification model *)
+Theorem hminify_full_eq m sched sord : valid_dfa m = true -> (forall a, In a sord <-> In a (d_syms m)) ->
+  hminify_full m sched sord = minify_full m.
+Proof.
+  intros Hv Hs. unfold hminify_full, minify_full. destruct (kept_minify_good m Hv) as [K [E HK]]. rewrite E. simpl.
+  apply hminify_core_eq; assumption.
+Qed.
+
+Theorem hto_partial_min_full_eq m sched sord : valid_dfa m = true -> (forall a, In a sord <-> In a (d_syms m)) ->
+  hto_partial_min_full m sched sord = to_partial_min_full m.
+Proof.
+  intros Hv Hs. unfold hto_partial_min_full, to_partial_min_full. destruct (kept_live_good m Hv) as [K [E [HK _]]].
+  rewrite E. simpl. apply hminify_core_eq; assumption.
+Qed.
